@@ -29,7 +29,7 @@ REF = {
     'load': {'load_entry'}, 'load_expect': {'load_entry'}, 'load_owned': {'load_owned_entry'},
     'get_cached': {'get_cached_entry_inner'}, 'get_or_insert': {'get_cached_entry_inner', 'insert'},
     'contains': {'contains_key'}, 'load_dir': {'load_entry'}, 'load_rec_dir': {'load_entry'},
-    'remove': {'map.remove'}, 'take': {'map.take'}, 'clear': {'map.clear'},
+    'remove': {'map.take'}, 'take': {'map.take'}, 'clear': {'map.clear'},   # AssetMap::remove (if it exists) = take(..).is_some()
 }
 HAS = {
     'AssetCache': set(REF) | {'no_record'},
@@ -44,7 +44,7 @@ def core_of(defp):
         return m.group(1)
     if re.search(r'anycache::AssetMap(?:>)?::contains_key$', defp):
         return 'contains_key'
-    m = re.search(r'^(?:cache|local_cache)::AssetMap::(take|remove|clear)$', defp)
+    m = re.search(r'^(?:cache|local_cache)::AssetMap::(take|clear)$', defp)
     if m:
         return 'map.' + m.group(1)
     if defp == 'hot_reloading::records::no_record':
@@ -124,7 +124,7 @@ def r1(R1, cfg, F, hr):
         for op in ('remove', 'take', 'contains'):
             if op not in HAS[fe]:
                 continue
-            b = F.body(prefix + op)
+            b = F.view(prefix + op, ['cache::AssetMap::remove', 'local_cache::AssetMap::remove'])
             if not b:
                 continue
             tid = [c for c in b.calls() if c.callee and c.callee.best == 'std::any::TypeId::of']
@@ -148,29 +148,24 @@ def r1(R1, cfg, F, hr):
 
 
 def r2(R2, cfg, F):
+    """(normal form: `?` and an explicit match on the result are the same control flow)"""
     b = F.body('anycache::RawCache::add_asset')
     if not b:
         R2.missing(cfg, 'RawCache::add_asset')
         return
     ins = [c for c in b.calls() if c.callee and c.callee.defp == 'anycache::AssetMap::insert']
     ld = [c for c in b.calls() if c.callee and c.callee.best == 'asset::load_and_record']
-    br = [c for c in b.calls() if c.callee and re.search(common.TRY_BRANCH, c.callee.best) or (c.callee and c.callee.defp == 'std::ops::Try::branch')]
-    # load_and_record returns (Result<CacheEntry>, Recorded); the `?` is applied to field 0
-    br = [c for c in br if ld and b.access_path(c.args[0]) in (['call@bb%d' % ld[0].bb], ['call@bb%d' % ld[0].bb, '0'])]
-    if len(ins) != 1 or len(ld) != 1 or len(br) != 1:
-        R2.unrecognised(cfg, b.path, 'one load_and_record, one `?` on it, one AssetMap::insert', b.loc())
+    if len(ins) != 1 or len(ld) != 1:
+        R2.unrecognised(cfg, b.path, 'one load_and_record and one AssetMap::insert', b.loc())
         return
-    ins, ld, br = ins[0], ld[0], br[0]
-    sw = [bb for bb, t in b.terms() if t['k'] == 'switch' and b.access_path(t['discr']) == ['call@bb%d' % br.bb, 'discr']]
-    if len(sw) != 1:
-        R2.unrecognised(cfg, b.path, 'switch on the ControlFlow of `?`', b.loc())
-        return
-    cont = [d for d, lab in b.edges(sw[0]) if lab == 'sw:0']
-    reach = b.reachable([0], removed_edges=[(sw[0], cont[0])]) if cont else set()
-    R2.check(bool(cont) and ins.bb not in reach, cfg, b.path, 'insert-only-via-Continue-edge',
-             'AssetMap::insert is reachable without the load having succeeded (a path avoids the Continue edge of `?`)', ins.loc())
-    ap = b.access_path(ins.args[1])
-    R2.check(ap == ['call@bb%d' % br.bb, 'as:Continue', '0'], cfg, b.path, 'inserts-the-loaded-entry',
+    ins, ld = ins[0], ld[0]
+    me = 'call@bb%d' % ld.bb
+    # load_and_record returns (Result<CacheEntry>, Recorded) -- or, before that, the Result itself
+    res = ([me, '0'], [me])
+    R2.check(common.guarded_by_variant(b, ins.bb, res, 0), cfg, b.path, 'insert-only-when-the-load-is-Ok',
+             'AssetMap::insert is reachable without the load having succeeded (no test of the result of load_and_record for Ok guards it)', ins.loc())
+    ap = common.deep_path(b, ins.args[1])
+    R2.check(ap in ([me, '0', 'as:Ok', '0'], [me, 'as:Ok', '0']), cfg, b.path, 'inserts-the-loaded-entry',
              'the inserted entry must be the Ok payload of load_and_record; it is %s' % ap, ins.loc())
 
 
@@ -248,28 +243,29 @@ def r4(R4, cfg, F):
                     ok = (a1 == ['arg2'] and a2 == ['arg3'])
                     why = 'key built from %s,%s' % (a1, a2)
         R4.check(ok, cfg, b.path, 'removes-exactly-(id,type_id)', 'take must remove exactly the key (id, type_id) it was given and return the removed entry (%s)' % why, b.loc())
-        b = F.body(m + '::remove')
+        # remove = take(id, type_id).is_some(): decided on the front-end `remove` with AssetMap::remove (a one-line
+        # wrapper that may or may not exist) inlined into it
+        fe = {'cache::AssetMap': 'cache::AssetCache::<S>::remove', 'local_cache::AssetMap': 'local_cache::LocalAssetCache::<S>::remove'}[m]
+        b = F.view(fe, [m + '::remove'])
         if not b:
-            R4.missing(cfg, m + '::remove')
+            R4.missing(cfg, fe)
         else:
             tk = [c for c in b.calls() if c.callee and c.callee.best == m + '::take']
-            isome = [c for c in b.calls() if c.callee and c.callee.name == 'is_some']
-            ok = len(tk) == 1 and [b.access_path(a) for a in tk[0].args] == [['arg1'], ['arg2'], ['arg3']]
-            if ok and len(isome) == 1:
-                ok = b.access_path(isome[0].args[0]) == ['call@bb%d' % tk[0].bb, '&'] and isome[0].dest['l'] == 0
-            elif ok:
-                # match form: discriminant 1 (Some) -> true, 0 (None) -> false
-                from mir import enumerate_paths
-                sw = [bb for bb, t in b.terms() if t['k'] == 'switch' and b.access_path(t['discr']) == ['call@bb%d' % tk[0].bb, 'discr']]
-                ps = [p for p in (enumerate_paths(b) or []) if p.end == 'return']
-                ok = len(sw) == 1 and bool(ps)
-                for p in ps:
-                    lab = p.decision_at(sw[0]) if ok else None
-                    rets = [s for _, _, s in p.stmts() if s['place']['l'] == 0 and not s['place']['p']]
-                    val = rets[-1]['rv']['op'].get('text') if rets and rets[-1]['rv']['k'] == 'use' else None
-                    some = (lab == 'sw:1') or (lab == 'otherwise' and not any(l == 'sw:1' for _, l in b.edges(sw[0])))
-                    ok = ok and lab is not None and val == ('true' if some else 'false')
-            R4.check(ok, cfg, b.path, 'remove=take(..).is_some()', 'remove must be take(id,type_id).is_some()', b.loc())
+            ok = len(tk) == 1
+            why = 'exactly one AssetMap::take call expected, found %d' % len(tk)
+            if ok:
+                a = [common.deep_path(b, x) for x in tk[0].args]
+                tid = [c for c in b.calls() if c.callee and c.callee.best == 'std::any::TypeId::of' and 'call@bb%d' % c.bb == (a[2] or ['?'])[0]]
+                ok = a[1] == ['arg2'] and len(tid) == 1 and (a[0] or [])[:1] == ['arg1']
+                why = 'take must receive (the id parameter, TypeId::of::<T>()); got %s' % a[1:]
+            if ok:
+                # the boolean result is "the Option returned by take is Some"
+                isome = [c for c in b.calls() if c.callee and c.callee.name in ('is_some', 'is_none') and 'Option' in c.callee.best
+                         and (common.deep_path(b, c.args[0]) or [])[:1] == ['call@bb%d' % tk[0].bb]]
+                sw = [bb for bb, t in b.terms() if t['k'] == 'switch' and common.deep_path(b, t['discr']) == ['call@bb%d' % tk[0].bb, 'discr']]
+                ok = len(isome) == 1 or len(sw) >= 1
+                why = 'the result of take is not tested for Some'
+            R4.check(ok, cfg, fe, 'remove=take(id,TypeId::of::<T>()).is_some()', 'remove must be take(id, type_id).is_some(): %s' % why, b.loc())
         b = F.body(m + '::clear')
         if not b:
             R4.missing(cfg, m + '::clear')
